@@ -276,6 +276,12 @@ func (f *Frame) callStatic(callee *ssa.Function, bindings []Val, args []Val, pc 
 				delete(f.spec, fmt.Sprintf("arg%d", i))
 			}
 		}()
+		if len(rc.Hints["call:"+callee.Name()]) > 0 {
+			f.vc.usedAnchors["call:"+callee.Name()] = true
+		}
+		if len(rc.Hints["call:"+callee.Name()+".after"]) > 0 {
+			f.vc.usedAnchors["call:"+callee.Name()+".after"] = true
+		}
 		for _, h := range rc.Hints["call:"+callee.Name()] {
 			f.applyHintCon(rc, h, pc, st, "call:"+callee.Name())
 		}
